@@ -27,15 +27,16 @@ ASSUMPTIONS = ['grouping keys are typed hashable scalars (int, decimal, str, dat
                'which of several equal representatives (1.0 vs 1.00) a key or min/max keeps is not asserted']
 
 POOLS = {
-    'int': [None, 3, -1, None, 0, 3, 7, 2, None],
-    'decimal': [None, D('1.5'), D('-2'), None, D('0'), D('1.50'), D('7'), D('0.25'), None],
-    'str': [None, 'b', '', None, 'a', 'B', 'ab', 'a', None],
+    'int': [None, 3, -1, None, 0, 3, 7, 2, None, None],
+    'decimal': [None, D('1.5'), D('-2'), None, D('0'), D('1.50'), D('7'), D('0.25'), None, None],
+    'str': [None, 'b', '', None, 'a', 'B', 'ab', 'a', None, None],
     'date': [None, datetime.date(2020, 2, 29), datetime.date(2019, 12, 31), None, datetime.date(2020, 3, 1),
-             datetime.date(2020, 2, 29), datetime.date(2020, 1, 1), datetime.date(2020, 1, 2), None],
-    'bool': [None, True, False, None, False, True, True, False, None],
-    'object': [None, 1, 'x', None, D('2.5'), datetime.date(2020, 1, 1), True, '', None],
+             datetime.date(2020, 2, 29), datetime.date(2020, 1, 1), datetime.date(2020, 1, 2), None, None],
+    'bool': [None, True, False, None, False, True, True, False, None, None],
+    'object': [None, 1, 'x', None, D('2.5'), datetime.date(2020, 1, 1), True, '', None, None],
 }
-KEYS = ['a', None, 'b', 'a', None, 'b', 'a', 'b', 'c']          # interleaved, NULL is an ordinary group
+# interleaved, NULL is an ordinary group; group 'a' starts with NULLs, group 'b' ends with one, group 'c' holds only one
+KEYS = ['a', None, 'b', 'a', None, 'b', 'a', 'b', 'c', 'b']
 AGGS = {'count': gen.ALLTYPES, 'sum': ['int', 'decimal'], 'min': gen.KEYTYPES, 'max': gen.KEYTYPES,
         'first': gen.ALLTYPES, 'last': gen.ALLTYPES}
 
@@ -65,6 +66,11 @@ def matrix_cases():
                 bql.select([(K, None), (a, 'v')], ('table', 'm'), where=['isnotnull', K], group_by=[K]),
                 bql.select([(K, None), (a, 'v')], ('table', 'm'), where=['const', 'bool', False], group_by=[K]),
                 bql.select([(a, 'v')], ('table', 'm'), where=['const', 'bool', False]),
+                # LIMIT cuts the groups, never the rows folded into them (the groups interleave in the table)
+                bql.select([(K, None), (a, 'v'), (star, 'n')], ('table', 'm'), group_by=[K], limit=1),
+                bql.select([(K, None), (a, 'v'), (star, 'n')], ('table', 'm'), limit=2),
+                bql.select([(a, 'v'), (star, 'n')], ('table', 'm'), group_by=[K], limit=2),
+                bql.select([(a, 'v'), (star, 'n')], ('table', 'm'), group_by=[K], limit=3, distinct=True),
             ]
             for sel in forms:
                 out.append({'tables': [table], 'sel': sel, 'text': bql.statement(sel), 'matrix': True})
